@@ -3,8 +3,8 @@ transforms of C15 and their inverse laws.  Runs the REAL Node methods under
 /venv/bin/python on every generated node and compares with an oracle written
 from the documentation / the property statement over ordered dictionaries.
 
-Bound: the attribute holds (a) a sequence of up to 3 items, (b) a mapping with
-up to 3 entries, (c) a scalar, or is missing; items/values are mappings over
+Bound: the attribute holds (a) a sequence of up to 2 items (3 in the thorough
+tier), (b) a mapping with up to 2 (3) entries, (c) a scalar, or is missing; items/values are mappings over
 the keys {id, val, x} (every subset, values scalars or -- for val -- a small
 mapping or sequence) or non-mappings; key attribute `id`,
 value attribute in {None, 'val'}; strict in {True, False}.
@@ -13,6 +13,7 @@ items/values, items lacking the value attribute -- are included.)  Prints a JSON
 import copy
 import itertools
 import json
+import os
 import sys
 
 import yaml
@@ -20,6 +21,8 @@ import yatiml
 from yatiml.helpers import Node
 
 WITH_KNOWN = True
+# quick: up to 2 items / entries; thorough (VERIF_BOUND=large): up to 3
+MAXN = 3 if os.environ.get('VERIF_BOUND') == 'large' else 2
 
 
 def mk(data):
@@ -71,7 +74,7 @@ NONMAP = ['plain', 5, [1]]
 
 def seq_cases():
     pool = ITEMS + (NONMAP if WITH_KNOWN else [])
-    for n in range(0, 3):
+    for n in range(0, MAXN + 1):
         for combo in itertools.product(range(len(pool)), repeat=n):
             items = []
             for j, ci in enumerate(combo):
@@ -92,7 +95,7 @@ def map_cases():
         if d not in uniq:
             uniq.append(d)
     uniq += [5, 'plain', ['l1', 'l2']]
-    for n in range(0, 3):
+    for n in range(0, MAXN + 1):
         for combo in itertools.product(range(len(uniq)), repeat=n):
             yield [('k%d' % j, copy.deepcopy(uniq[ci]))
                    for j, ci in enumerate(combo)]
